@@ -140,6 +140,19 @@ fn rp64_merge_with_int_contract() {
     assert!(enc(v) != enc(w));
 }
 
+/// a second, cheaper permutation double for the multi-block harnesses: rotation by one word, the first capacity word added to
+/// every word, plus a constant in word 0 (position-sensitive, application-counting, every digest word sees the length tag; equalities between two hash computations over it
+/// are decided word by word without any arithmetic mixing)
+pub fn perm_rot(state: &mut [BaseElement; STATE_WIDTH]) {
+    let old = *state;
+    let mut i = 0;
+    while i < STATE_WIDTH {
+        state[i] = old[(i + 1) % STATE_WIDTH] + old[0];
+        i += 1;
+    }
+    state[0] = state[0] + BaseElement::ONE;
+}
+
 /// the documented sponge over base-field residues, written independently of hash_elements: 12 words, words
 /// 0..3 capacity, 4..11 rate; capacity word 0 starts as the number of residues; residues are added into
 /// the rate one by one, the permutation runs after every 8 and once more for a partial block (zero
@@ -153,13 +166,13 @@ fn reference_sponge(residues: &[BaseElement]) -> ElementDigest {
         st[4 + filled] = st[4 + filled] + residues[k];
         filled += 1;
         if filled == 8 {
-            perm_stub(&mut st);
+            perm_rot(&mut st);
             filled = 0;
         }
         k += 1;
     }
     if filled > 0 {
-        perm_stub(&mut st);
+        perm_rot(&mut st);
     }
     ElementDigest::new([st[4], st[5], st[6], st[7]])
 }
@@ -176,7 +189,7 @@ fn any_elements<const L: usize>() -> [BaseElement; L] {
     els
 }
 
-/// hash_elements over L base-field elements equals the documented sponge
+/// hash_elements over L base-field elements (all symbolic) equals the documented sponge
 fn hash_elements_is_reference_sponge<const L: usize>() {
     let els = any_elements::<L>();
     assert!(same(Rp64_256::hash_elements(&els), reference_sponge(&els)));
@@ -187,7 +200,7 @@ macro_rules! he {
         #[kani::proof]
         #[kani::unwind(20)]
         #[kani::stub(BaseElement::new, new_stub)]
-        #[kani::stub(Rp64_256::apply_permutation, perm_stub)]
+        #[kani::stub(Rp64_256::apply_permutation, perm_rot)]
         fn $name() {
             hash_elements_is_reference_sponge::<$l>();
         }
@@ -206,7 +219,7 @@ he!(rp64_hash_elements_len17_bounded, 17);
 #[kani::proof]
 #[kani::unwind(20)]
 #[kani::stub(BaseElement::new, new_stub)]
-#[kani::stub(Rp64_256::apply_permutation, perm_stub)]
+#[kani::stub(Rp64_256::apply_permutation, perm_rot)]
 fn rp64_hash_elements_extension_typing_bounded() {
     use math::fields::{CubeExtension, QuadExtension};
     let c = any_elements::<6>();
